@@ -209,4 +209,74 @@ theorem filterMap_load (M : Manifest) (f : Files) (live : List PathInfo)
     simp only [List.map_cons, List.filterMap_cons, h p (List.mem_cons_self ..)]
     rw [ih (fun q hq => h q (List.mem_cons_of_mem _ hq))]
 
+
+/-! ### the delete_old_all block empties `accepted/` before it removes the directory -/
+
+theorem run_removes (ks : List Key) (d : Disk) (k : Key) :
+    (run (ks.map Effect.remove) d).files.get k = if k ∈ ks then .absent else d.files.get k := by
+  induction ks generalizing d with
+  | nil => simp
+  | cons x t ih =>
+    simp only [List.map_cons, run_cons, ih, Effect.apply, Files.get_set, List.mem_cons]
+    by_cases h1 : k ∈ t
+    · simp [h1]
+    · by_cases h2 : x = k
+      · simp [h1, h2]
+      · have : ¬ k = x := fun h => h2 h.symm
+        simp [h1, h2, this]
+
+theorem mem_dedup (x : Nat) : ∀ l : List Nat, x ∈ dedup l ↔ x ∈ l
+  | [] => by simp [dedup]
+  | y :: t => by
+    simp only [dedup]
+    split
+    · rename_i hy
+      rw [mem_dedup x t]
+      constructor
+      · exact fun h => List.mem_cons_of_mem _ h
+      · intro h
+        rcases List.mem_cons.1 h with rfl | h
+        · exact hy
+        · exact h
+    · simp [mem_dedup x t]
+
+theorem get_ne_absent_mem (f : Files) (k : Key) (h : f.get k ≠ .absent) : ∃ s, (k, s) ∈ f := by
+  induction f with
+  | nil => exact absurd rfl h
+  | cons e t ih =>
+    obtain ⟨k', s⟩ := e
+    simp only [Files.get] at h
+    by_cases hk : k' = k
+    · subst hk; exact ⟨s, List.mem_cons_self ..⟩
+    · rw [if_neg hk] at h
+      obtain ⟨s', hs⟩ := ih h
+      exact ⟨s', List.mem_cons_of_mem _ hs⟩
+
+theorem mem_tfileNames (f : Files) (pn n : Nat) (h : f.get (.tfile pn n) ≠ .absent) :
+    n ∈ tfileNames f pn := by
+  obtain ⟨s, hs⟩ := get_ne_absent_mem f _ h
+  unfold tfileNames
+  rw [List.mem_filter]
+  refine ⟨(mem_dedup _ _).2 ?_, by simpa using h⟩
+  rw [List.mem_filterMap]
+  exact ⟨(.tfile pn n, s), hs, by simp⟩
+
+/-- **the fix e7b75fb in the model**: when `os.rmdir(load/pn/accepted)` is reached, no entry of
+    that directory exists any more — whatever stale files an interrupted and redone store left -/
+theorem delAll_leaves_accepted_empty (o : Old) (d : Disk) (n : Nat) :
+    (run (delAllRemoves o d) d).files.get (.tfile o.pn n) = .absent := by
+  unfold delAllRemoves
+  simp only [run_append]
+  generalize hd2 : run (((txtKeys o.pn).filter (fun k => (d.files.get k).isFile)).map Effect.remove) d = d2
+  have : (tfileNames d2.files o.pn).map (fun n => Effect.remove (.tfile o.pn n))
+      = ((tfileNames d2.files o.pn).map (fun n => Key.tfile o.pn n)).map Effect.remove := by
+    rw [List.map_map]; rfl
+  rw [this, run_removes]
+  split
+  · rfl
+  · rename_i hn
+    by_cases habs : d2.files.get (.tfile o.pn n) = .absent
+    · exact habs
+    · exact absurd (List.mem_map_of_mem (mem_tfileNames d2.files o.pn n habs)) hn
+
 end Infretis.Fs
